@@ -86,7 +86,7 @@ theorem lookup_simulate_deliver {mr : Nat} {cl : Bool} (fifo : List Waiter) (str
   | cons w ws ih =>
     cases hres : (parseFrame mr w.corr w.flex cl stream).res with
     | deliver b0 =>
-      simp only [simulate, parseFrameFast_eq, hres, lookup] at h
+      simp only [simulate, hres, lookup] at h
       split at h
       · rename_i hid
         refine ⟨[], w, ws, stream, rfl, by simpa using hid, .nil _, ?_⟩
@@ -94,7 +94,7 @@ theorem lookup_simulate_deliver {mr : Nat} {cl : Bool} (fifo : List Waiter) (str
       · obtain ⟨before, w', after, rest, hf, hw, hd, hp⟩ := ih _ h
         exact ⟨w :: before, w', after, rest, by rw [hf]; rfl, hw, .cons _ _ _ _ _ hres hd, hp⟩
     | negSize | overSize | eof | needMore | short | mismatch | panic =>
-      simp only [simulate, parseFrameFast_eq, hres, lookup] at h
+      simp only [simulate, hres, lookup] at h
       split at h
       · simp at h
       · rcases lookup_map_behind i ws with hb | hb <;> rw [hb] at h <;> simp at h
@@ -109,12 +109,12 @@ theorem lookup_simulate_behind {mr : Nat} {cl : Bool} (before : List Waiter) (w'
     cases hres : (parseFrame mr w'.corr w'.flex cl s).res with
     | deliver b0 => exact absurd hres (hfail b0)
     | negSize | overSize | eof | needMore | short | mismatch | panic =>
-      simp only [List.nil_append, simulate, parseFrameFast_eq, hres, lookup]
+      simp only [List.nil_append, simulate, hres, lookup]
       rw [if_neg (by simpa using hnw)]
       exact lookup_map_behind_mem hmem
   | cons w ws s r body hres _ ih =>
     simp only [List.map_cons, List.mem_cons, not_or] at hnb
-    simp only [List.cons_append, simulate, parseFrameFast_eq, hres, lookup]
+    simp only [List.cons_append, simulate, hres, lookup]
     rw [if_neg (by simpa using (Ne.symm hnb.1))]
     exact ih hfail hnb.2
 
